@@ -38,7 +38,20 @@ static Binson build_obj(const vnode *o, vrng *r)
         const vnode *kid = o->kids[order[k]];
         std::string key((const char *)kid->name, kid->name_len);
         if (kid->kind == K_BYTES && vrn(r, 2)) b.put(key, kid->data, kid->data_len);            /* the (key, data, size) overload */
-        else if (kid->kind == K_OBJ && vrn(r, 2)) b.put(key, build_obj(kid, r));                 /* the (key, Binson) overload */
+        else if (kid->kind == K_OBJ && vrn(r, 2)) {
+            /* the (key, Binson) overload, half of the time from an object the caller keeps and goes on using: what was put is a copy */
+            if (vrn(r, 2)) b.put(key, build_obj(kid, r));
+            else {
+                Binson child = build_obj(kid, r);
+                b.put(key, child);
+                switch (vrn(r, 3)) {
+                case 0: child.clear(); break;
+                case 1: child.put("\x02later", BinsonValue((int64_t)5)); break;
+                default: { std::vector<uint8_t> other = { 0x40, 0x14, 0x01, 0x7a, 0x10, 0x01, 0x41 }; child.deserialize(other); break; }
+                }
+                vw_count("children_modified_after_put", 1);
+            }
+        }
         else b.put(key, build_val(kid, r));
         if (vrn(r, 6) == 0) b.put(key, build_val(kid, r));                                        /* putting a key twice replaces */
     }
@@ -193,9 +206,16 @@ static void case_tree(vrng *r)
       if (w.error_flags != BINSON_ERROR_NONE || binson_writer_get_counter(&w) != e.n || memcmp(dst, e.p, e.n) != 0) report("c15:serialize-writer", "serialize(binson_writer*) disagrees with serialize()", e.p, e.n);
       vg_free(dst, e.n); }
     for (int which = 0; which < 3; which++) {
-        Binson y; std::string msg;
+        bool from_copy = vrn(r, 3) == 0;
+        Binson fresh; Binson y = from_copy ? x : fresh;      /* the receiver may have begun as a copy of x: x itself must not notice */
+        std::string msg;
         int out = run_overload(which, exact, e.n, &s, y, msg);
         char sig[80];
+        if (from_copy) {
+            std::vector<uint8_t> sx = x.serialize();
+            if (sx != s) { snprintf(sig, sizeof sig, "c15:copy-not-independent:overload%d", which + 1); report(sig, "deserialize into a copy of x changed what x.serialize() returns", sx.data(), sx.size()); break; }
+            vw_count("deserialize_into_copies", 1);
+        }
         if (out != OUT_RETURNED) { snprintf(sig, sizeof sig, "c15:roundtrip-threw:overload%d", which + 1); report(sig, "deserialize(serialize(x)) threw: " + msg, e.p, e.n); break; }
         std::string diff = cmp_obj(y, t);
         if (!diff.empty()) { snprintf(sig, sizeof sig, "c15:roundtrip-differs:overload%d", which + 1); report(sig, "deserialize(serialize(x)) != x: " + diff, e.p, e.n); break; }
